@@ -140,7 +140,7 @@ def install(I):
                 heap.materialise(v, name)
             v.attrs[name] = value
             v.writes.append(name)
-            cur().event("write", v, name)
+            cur().event("write", v, name, value)
             return None
         raise Unsupported("object.__setattr__ on live object")
 
